@@ -42,6 +42,14 @@ func runC10(t *mon.T, raw json.RawMessage) {
 	}
 	r := gen.Rand(d.Seed)
 	content := gen.MakeContent(r, gen.ContentOpts{MinBlocks: 0, MaxBlocks: 8, MaxRoots: 4, Dups: true, Synthetic: true, Boundaries: true, Block: gen.BlockOpts{MaxSize: 300}})
+	storeID := r.Intn(2) == 0
+	sorted := r.Intn(2) == 0
+	if !storeID && r.Intn(4) == 0 {
+		// an identity CID longer than MaxIndexCidSize: wrapping indexes no identity CID by default, so no limit applies
+		i := r.Intn(len(content.Blocks) + 1)
+		content.Blocks = append(content.Blocks[:i], append([]refcar.Block{gen.LongIdentityBlock(r)}, content.Blocks[i:]...)...)
+		t.Cover("input:identity-cid-longer-than-max-index-cid-size")
+	}
 	x := refcar.EncodeV1(content.Roots, content.NilRoots, content.Blocks)
 	ref, _ := refcar.DecodeV1(x, false)
 	dir := lab.TempDir("c10")
@@ -49,8 +57,6 @@ func runC10(t *mon.T, raw json.RawMessage) {
 	t.Nontrivial()
 
 	// ---------------- wrap
-	storeID := r.Intn(2) == 0
-	sorted := r.Intn(2) == 0
 	var wopts []carv2.Option
 	codec := uint64(refcar.CodecMhIndexSorted)
 	if sorted {
